@@ -143,6 +143,49 @@ def single_record_cases(R, count, stream="api"):
                "secs": {sec: [{"line": 3, "generic": False, "userapp": False, "sig": sg}]}}
 
 
+def witness_record_cases(R, count, stream="api-witness"):
+    """As single_record_cases, but the packets carry HOSTILE option areas (C03's generator: wrong lengths, unknown kinds, garbage after a
+    well-formed prefix) and the record's signature is derived from what the VERIFIED extractor reads from those bytes (the model is asked at
+    generation time, as C05 does for its witnesses): the packet must match the signature written from its own headers, and small edits of it
+    must be judged by the rules."""
+    from harness import core, findings
+    from harness.props import c03
+    pend = []
+    for _ in range(count * 2):
+        spec, _, ty = G.rand_wire_pkt(R, flags=R.choice([2, 0x12]))
+        if (spec["flags"] & 0x17) not in (2, 0x12):
+            continue
+        spec["mf"], spec["frag"] = False, 0
+        spec.pop("link", None)
+        spec["opts"] = c03.hostile_opts(R)
+        if findings.scapy_ao_short(bytes.fromhex(spec["opts"])):
+            continue                                         # KF-scapy-ao: Scapy cannot dissect these at all
+        syn_mss = R.choice([0, 0, 1460, 536]) if ty == 0x12 else 0
+        pend.append((spec, ty, syn_mss))
+    try:
+        res = core.run_model(["extract %d %d %s" % (W.full(sp)["v"], sm, W.build(sp).hex()) for sp, _, sm in pend])
+    except Exception:
+        return
+    made = 0
+    for (spec, ty, syn_mss), r in zip(pend, res):
+        if made >= count or not (isinstance(r, dict) and isinstance(r.get("ok"), dict) and "psig" in r["ok"]):
+            continue
+        p = dict(r["ok"]["psig"])
+        md = G.rand_md(R)
+        try:
+            sg = G.matching_sig(R, p, md)
+            for _ in range(R.choice([0, 0, 0, 1, 1, 2])):
+                sg = G.edit_sig(R, sg, p, md)
+            G.legal_quirks(sg)
+        except Exception:
+            continue
+        sg["dist"] = 0
+        sec = "request" if ty == 2 else "response"
+        made += 1
+        yield {"stream": stream, "api": True, "md": md, "syn_mss": syn_mss, "spec": spec, "lines": ["[tcp:%s]" % sec, "label = s:unix:X:y", "sig = " + G.sig_text(sg)],
+               "pkt": p, "secs": {sec: [{"line": 3, "generic": False, "userapp": False, "sig": sg}]}}
+
+
 def enc_recs(recs):
     if recs is None:
         return "-1"
